@@ -373,3 +373,16 @@ def describe(case):  # noqa: F811
 
 def buckets(case, ans):  # noqa: F811
     return _pair_buckets(case, ans) if case.get("pair") else _single["buckets"](case, ans)
+
+
+RULE += (" PAIR STREAM (two LIVE instances; props/pairlib.py, channel `pair`): 450 (quick) cases hold two configs from ONE template (seed, "
+         "banner / macro bearing and plain random configs; B = A with children re-texted / re-indented / commented / swapped / inserted / "
+         "deleted / moved, 15 % identical), parsed with the same or different syntax / ignore_blank_lines / auto_commit / parse options. BOTH "
+         "are parsed first; a history over the extended alphabet (stale-probe histories included) runs on A with a look at B before every "
+         "operation and after the last -- texts, line numbers, links, the seven family views, two recursive searches --, then a history on B "
+         "(40 % the same calls) with the same watch on A. The histories are run by edit7.run_history itself, judged by the oracle above on "
+         "their own case (tree after every commit = fresh parse; searches refuse exactly while an insert is pending ON THAT instance) and "
+         "compared with the model's answer for that history alone; the watched instance must not change and answers while the other one is stale.")
+LEVEL_NOTE += (" Two live instances: the edit machine is a function of one history (channel `pair` only carries ordinary requests), so "
+               "'commit / staleness of A neither depends on nor touches B' holds for the model by construction and is MEASURED for the code by "
+               "the pair stream.")
